@@ -607,6 +607,11 @@ def check_loader_semantics(db, chk, rule_assoc: str, rule_reenc: str) -> None:
                        why="results paired with another rank list (e.g. the dict order of trace_files) store one rank's frame under another rank")
                 if not isinstance(f, Frame) or not rule_reenc:
                     continue
+                # a path taken only when THIS frame has no rows says nothing about row contents (an empty frame left untouched is re-encoded vacuously)
+                empty_here = any(isinstance(a_, tuple) and a_[:2] == ("cmp", "==") and T.find(a_, lambda s_: s_[0] == "nrows" and base in T.subterms(s_)) and not T.find(a_, lambda s_: s_[0] == "col")
+                                 for a_ in (r.cond()[1] if r.path and r.cond()[0] == "and" else ([r.cond()] if r.path else [])))
+                if empty_here and T.show(r.cond()).count("nrows") >= 1 and "== 0" in T.show(r.cond()):
+                    continue
                 for c in ("cat", "name"):
                     old = T.col(base, c)
                     want = ("getitem", T.P(f"GMAP@{nver}"), ("getitem", T.P(f"LTAB:{p}"), old))
